@@ -13,6 +13,20 @@ from .c20 import closure_creation, cap_subst_for
 from .rad import dominating_cmps, _deep_atoms
 
 
+def _rename_params(pl, owner):
+    def ren(a):
+        if a[0] == "p":
+            return ("cp", owner) + tuple(a[1:])
+        if a[0] == "f":
+            return ("f", a[1], tuple(tuple(sorted(((tuple(ren(x) for x in mono), c) for mono, c in k), key=repr)) for k in a[2]))
+        return a
+    out = {}
+    for mono, c in pl.t.items():
+        m = tuple(sorted((ren(x) for x in mono), key=repr))
+        out[m] = out.get(m, 0) + c
+    return Poly(out)
+
+
 def chain_sym(p, f, cache):
     if f.uid in cache:
         return cache[f.uid]
@@ -20,7 +34,10 @@ def chain_sym(p, f, cache):
     if par is None:
         s = Sym(f, Flow(f))
     else:
-        s = Sym(f, Flow(f), cap_subst=cap_subst_for(par, chain_sym(p, par, cache), f.uid))
+        caps = cap_subst_for(par, chain_sym(p, par, cache), f.uid)
+        # a parameter of the parent closure seen from the child is not the child's parameter of the same number
+        caps = {k: _rename_params(v, par.uid) for k, v in caps.items()}
+        s = Sym(f, Flow(f), cap_subst=caps)
     cache[f.uid] = s
     return s
 
@@ -41,6 +58,24 @@ class _Named:
 
     def __repr__(self):
         return self.s
+
+
+def _indexed_chain(p, cache, f, flow, sym, op, depth=0):
+    """like _indexed, following a captured reference (`let x = &table[e]; .. |k| use(x)`) to the closure that built it; index expressions come back in unique-parameter form"""
+    r = _indexed(f, flow, sym, op)
+    if r is not None:
+        return _rename_params(r[0], f.uid), _rename_params(r[1], f.uid)
+    if depth > 4 or f.kind != "Closure" or not f.parent:
+        return None
+    par = p.fn(f.parent)
+    cc = closure_creation(par, f.uid) if par is not None else None
+    if cc is None:
+        return None
+    for q in flow.op_roots(op):
+        if q[0] == "param" and q[1] == 1 and q[2] and q[2][0].isdigit() and int(q[2][0]) < len(cc[1][2]["o"]):
+            T = ("deref", "deref_mut", "borrow", "borrow_mut", "as_mut", "as_ref")
+            return _indexed_chain(p, cache, par, Flow(par, transparent=T), chain_sym(p, par, cache), cc[1][2]["o"][int(q[2][0])], depth + 1)
+    return None
 
 
 def rot1(p, res):
@@ -110,11 +145,238 @@ def rot1(p, res):
     return n
 
 
+# ------------------------------------------------------------------ EXT-1
+IT_T = ("into_iter", "by_ref", "deref", "deref_mut", "borrow", "borrow_mut", "iter", "into", "from")
+
+
+def _range_of(f, flow, sym, op):
+    """operand that is (an iterator over) a literal range `lo..hi` -> (lo, hi)"""
+    for r in flow.op_roots(op):
+        if r[0] == "agg":
+            rv = f.blocks[r[1]]["s"][r[2]][2]
+            if rv.get("ak") == "Adt" and rv.get("fields") and "start" in rv["fields"] and "end" in rv["fields"]:
+                return sym.operand(rv["o"][rv["fields"].index("start")]), sym.operand(rv["o"][rv["fields"].index("end")])
+    return None
+
+
+def _loop_var(p, cache, a):
+    """a loop-variable atom -> list of (lo, hi) ranges it runs over, one per zip component it belongs to, as ('zip', next-site, component, [(lo, hi), (lo, hi)]) or
+    ('range', site, 0, [(lo, hi)]); None when the atom is not a recognised loop variable"""
+    if a[0] == "call" and len(a) > 3:
+        g = p.fn(a[1])
+        if g is None:
+            return None
+        t = g.blocks[a[2]]["t"]
+        if (g.callee_def(t) or {}).get("n") != "next":
+            return None
+        flow = Flow(g, transparent=IT_T)
+        sym = chain_sym(p, g, cache)
+        for r in flow.op_roots(t["a"][0]):
+            if r[0] == "call":
+                t2 = g.blocks[r[1]]["t"]
+                if (g.callee_def(t2) or {}).get("n") == "zip" and len(t2["a"]) == 2:
+                    r0, r1 = _range_of(g, flow, sym, t2["a"][0]), _range_of(g, flow, sym, t2["a"][1])
+                    if r0 and r1 and a[3][:1] == ("0",) and a[3][1:2] in (("0",), ("1",)):
+                        return ("zip", (a[1], a[2]), int(a[3][1]), [tuple(_rename_params(x, g.uid) for x in r0), tuple(_rename_params(x, g.uid) for x in r1)])
+        rg = _range_of(g, flow, sym, t["a"][0])
+        if rg and a[3] == ("0",):
+            return ("range", (a[1], a[2]), 0, [tuple(_rename_params(x, g.uid) for x in rg)])
+        return None
+    if a[0] == "cp" and len(a) >= 3 and a[2] == 2:
+        # the argument of a closure handed to `(lo..hi).for_each(..)`
+        c = p.fn(a[1])
+        par = p.fn(c.parent) if c is not None and c.parent else None
+        if par is None:
+            return None
+        cc = closure_creation(par, c.uid)
+        if cc is None:
+            return None
+        clos_local = cc[1][1][0]
+        flow = Flow(par, transparent=IT_T)
+        sym = chain_sym(p, par, cache)
+        for bi, t in par.calls():
+            if (par.callee_def(t) or {}).get("n") == "for_each" and len(t["a"]) == 2 and t["a"][1][0] in ("c", "m") and t["a"][1][1][0] == clos_local:
+                rg = _range_of(par, flow, sym, t["a"][0])
+                if rg:
+                    return ("range", (par.uid, bi), 0, [tuple(_rename_params(x, par.uid) for x in rg)])
+    return None
+
+
+def ext1(p, res):
+    """interleaved polynomials of the extended blind rotation: a rotation by  pos = hi * ext + lo  of the extended ring acts on the ext interleaved polynomials as
+        destination i  <-  X^(hi + [i < lo]) * source ((i - lo) mod ext),        every destination 0 <= i < ext exactly once.
+    The move sites of each variant (`vec_znx_rotate(e, acc[i], lut[j])` for the initial rotation, the update `acc[i] += X^e u[j] - u[i]`) are collected along the closure chain
+    with their index expressions, the ranges / zips of ranges their loop variables run over and the comparisons that decide them; the (i, j, e) triples are enumerated from the
+    extracted expressions for small values of (ext, 2N, pos) and compared with the law."""
+    from . import pwl
+    n = 0
+    cache = {}
+    T = ("deref", "deref_mut", "borrow", "borrow_mut", "as_mut", "as_ref")
+    roots = sorted((f for f in p.lib_fns() if f.kind != "Closure" and f.blocks and f.uid.startswith("poulpy_bin_fhe::blind_rotation")), key=lambda x: x.uid)
+    for root in roots:
+        fam = [root] + sorted((c for c in p.fns.values() if c.uid.startswith(root.uid + "::") and c.blocks), key=lambda x: x.uid)
+        sites = []
+        unparsed = []
+        for f in fam:
+            sym = chain_sym(p, f, cache)
+            flow = Flow(f, transparent=T)
+            svp = [(bi, t) for bi, t in f.calls() if (f.callee_def(t) or {}).get("n") == "svp_apply_dft_to_dft" and len(t["a"]) == 7]
+            adds = [(bi, t) for bi, t in f.calls() if (f.callee_def(t) or {}).get("n") == "vec_znx_dft_add_assign" and len(t["a"]) == 5]
+            if len(svp) == 1 and len(adds) == 1:
+                e, j, i = (_indexed_chain(p, cache, f, flow, sym, svp[0][1]["a"][3]), _indexed_chain(p, cache, f, flow, sym, svp[0][1]["a"][5]),
+                           _indexed_chain(p, cache, f, flow, sym, adds[0][1]["a"][1]))
+                if e and j and i:
+                    sites.append({"fn": f, "bb": svp[0][0], "kind": "update", "i": i[1], "j": j[1], "e": e[1], "line": svp[0][1]["l"]})
+                else:
+                    unparsed.append((f, svp[0][1]["l"]))
+            for bi, t in f.calls():
+                if (f.callee_def(t) or {}).get("n") == "vec_znx_rotate" and len(t["a"]) == 6:
+                    i, j = _indexed_chain(p, cache, f, flow, sym, t["a"][2]), _indexed_chain(p, cache, f, flow, sym, t["a"][4])
+                    if i and j:
+                        sites.append({"fn": f, "bb": bi, "kind": "rotate", "i": i[1], "j": j[1], "e": _rename_params(sym.operand(t["a"][1]), f.uid), "line": t["l"]})
+        # the split form: the exponent contains Div(pos, ext)
+        groups = {}
+        for st in sites:
+            div = [a for a in _deep_atoms(st["e"]) if a[0] == "f" and a[1] == "Div"]
+            div = list({repr(a): a for a in div}.values())
+            if len(div) != 1:
+                if div:
+                    unparsed.append((st["fn"], st["line"]))
+                continue
+            pos, ext = Poly(dict(div[0][2][0])), Poly(dict(div[0][2][1]))
+            if len(pos.t) != 1 or len(ext.t) != 1:
+                continue
+            groups.setdefault((st["kind"], pos.key(), ext.key()), []).append(st)
+        for (kind, pk, ek), grp in sorted(groups.items(), key=lambda x: repr(x[0])):
+            n += 1
+            pos, ext = Poly(dict(pk)), Poly(dict(ek))
+            pos_atom, ext_atom = list(pos.t)[0][0], list(ext.t)[0][0]
+            # loop variables and guards of every site
+            prepared = []
+            undec = None
+            for st in grp:
+                lvs = {}
+                for a in _deep_atoms(st["i"]) | _deep_atoms(st["j"]) | _deep_atoms(st["e"]):
+                    lv = _loop_var(p, cache, a)
+                    if lv is not None:
+                        lvs[a] = lv
+                guards = []
+                g_fn, at_block = st["fn"], st["bb"]
+                while g_fn is not None:
+                    gs = chain_sym(p, g_fn, cache)
+                    guards += [(op, _rename_params(x, g_fn.uid), _rename_params(y, g_fn.uid)) for op, x, y in dominating_cmps(g_fn, CFG(g_fn), Flow(g_fn), gs, at_block)]
+                    par = p.fn(g_fn.parent) if g_fn.kind == "Closure" and g_fn.parent else None
+                    if par is None:
+                        break
+                    cc = closure_creation(par, g_fn.uid)
+                    if cc is None:
+                        break
+                    g_fn, at_block = par, cc[0]
+                # only guards that speak about the split (mention pos)
+                guards = [gd for gd in guards if pos_atom in (_deep_atoms(gd[1]) | _deep_atoms(gd[2]))]
+                if not any(a in lvs for a in _deep_atoms(st["i"])):
+                    undec = "the destination index of a move site is not a loop variable"
+                prepared.append((st, lvs, guards))
+            if kind == "update" and unparsed:
+                undec = "a move site whose operands cannot be extracted exists beside the recognised ones (%s)" % unparsed[0][0].where(unparsed[0][1])
+            if undec:
+                res.undec("EXT-1", "%s (%s sites): %s" % (root.pretty, kind, undec))
+                continue
+            # masks `x & (M - 1)`: M has to be a power of two in the valuation
+            mask_atoms = set()
+            for st, lvs, guards in prepared:
+                for a in _deep_atoms(st["e"]):
+                    if a[0] == "f" and a[1] == "BitAnd" and a != pos_atom:
+                        m = Poly(dict(a[2][1])) + Poly.const(1)
+                        if len(m.t) == 1 and list(m.t)[0] != ():
+                            mono, c = list(m.t.items())[0]
+                            if len(mono) == 1 and c in (1, 2) and mono[0] != ext_atom:
+                                mask_atoms.add((mono[0], c))
+            bad = None
+            pts = 0
+            for E in (2, 4, 8):
+                for N2 in (4, 8):
+                    for posv in range(0, N2 * E):
+                        H, L = posv // E, posv % E
+                        got = {}
+                        err = None
+                        for st, lvs, guards in prepared:
+                            base = {repr(pos_atom): posv, repr(ext_atom): E}
+                            for ma, c in mask_atoms:
+                                base[repr(ma)] = N2 // c
+                            # iteration spaces: one counter per loop site (zip components advance together)
+                            loops = {}
+                            for a, lv in lvs.items():
+                                loops.setdefault(lv[1], []).append((a, lv))
+                            spaces = []
+                            okl = True
+                            for site, members in sorted(loops.items(), key=repr):
+                                rngs = members[0][1][3]
+                                ev0 = pwl.Eval(p, dict(base, __fresh__=lambda k: 1))
+                                try:
+                                    bounds = [(ev0.poly(lo), ev0.poly(hi)) for lo, hi in rngs]
+                                except pwl.ErrPath:
+                                    okl = False
+                                    break
+                                trip = min(max(hi - lo, 0) for lo, hi in bounds)
+                                spaces.append((members, bounds, trip))
+                            if not okl:
+                                err = "a loop bound cannot be evaluated"
+                                break
+
+                            def rec(k, env):
+                                if k == len(spaces):
+                                    ev = pwl.Eval(p, dict(base, **env, __fresh__=lambda kk: 1))
+                                    try:
+                                        if not all({"Eq": x == y, "Ne": x != y, "Lt": x < y, "Le": x <= y, "Gt": x > y, "Ge": x >= y}[op]
+                                                   for op, a_, b_ in guards for x, y in [(ev.poly(a_), ev.poly(b_))]):
+                                            return
+                                        yield ev.poly(st["i"]), ev.poly(st["j"]), ev.poly(st["e"])
+                                    except pwl.ErrPath:
+                                        return
+                                    return
+                                members, bounds, trip = spaces[k]
+                                for tt in range(trip):
+                                    e2 = dict(env)
+                                    for a, lv in members:
+                                        e2[repr(a)] = bounds[lv[2]][0] + tt
+                                    yield from rec(k + 1, e2)
+                            for i_, j_, e_ in rec(0, {}):
+                                got.setdefault(i_, []).append((j_, e_, st))
+                        if err:
+                            continue
+                        pts += 1
+                        for i_ in range(E):
+                            hits = got.get(i_, [])
+                            want_j, want_e = (i_ - L) % E, (H + (1 if i_ < L else 0)) % N2
+                            if not hits and kind == "update" and want_j == i_ and want_e == 0:
+                                continue            # X^0 * u[i] - u[i]: the update adds nothing and may be skipped
+                            if len(hits) != 1:
+                                bad = bad or ({"ext": E, "two_n": N2, "pos": posv, "dst": i_, "moves": len(hits)}, "destination polynomial %d receives %d moves (exactly one expected)" % (i_, len(hits)), grp[0])
+                            elif hits[0][0] != want_j or hits[0][1] % N2 != want_e:
+                                bad = bad or ({"ext": E, "two_n": N2, "pos": posv, "dst": i_, "src": hits[0][0], "exp": hits[0][1]},
+                                              "destination polynomial %d receives X^%d * source %d where the split pos = %d * ext + %d needs X^%d * source %d"
+                                              % (i_, hits[0][1] % N2, hits[0][0], H, L, want_e, want_j), hits[0][2])
+                        extra = [k for k in got if k < 0 or k >= E]
+                        if extra and not bad:
+                            bad = ({"ext": E, "pos": posv, "dst": extra[0]}, "a move addresses destination polynomial %d outside [0, ext)" % extra[0], grp[0])
+            if bad:
+                res.bad("EXT-1", root.pretty, "%s:interleaved-move" % kind,
+                        "%s (%s sites), ext = %d, 2N = %d, pos = %d: %s" % (root.pretty, kind, bad[0].get("ext"), bad[0].get("two_n", 0), bad[0].get("pos"), bad[1]),
+                        site=bad[2]["fn"].where(bad[2]["line"]), detail=bad[0])
+            elif pts >= 50:
+                res.ok("EXT-1", {"fn": root.pretty, "kind": kind, "sites": len(grp), "valuations": pts, "law": "dst i <- X^(hi + [i < lo]) * src ((i - lo) mod ext), each i once"})
+            else:
+                res.undec("EXT-1", "%s (%s sites): too few valuations could be evaluated (%d)" % (root.pretty, kind, pts))
+    return n
+
+
 def run(res, tier):
     res.level = "other"
     res.explanation = ("Only the skip guards of the CGGI accumulator update are decided: an update acc[i] += X^e * u[j] - u[i] whose execution depends on a comparison of the exponent with "
                        "zero has j == i symbolically (on the closure chain of the three execute variants). The modulus switch, the table encoding, the rotation arithmetic and the "
                        "noise are not decided.")
+    res.rule("EXT-1", "extended blind rotation: destination polynomial i receives X^(hi + [i < lo]) * source ((i - lo) mod ext), every destination exactly once, for every split pos = hi * ext + lo")
     res.rule("ROT-1", "an accumulator update skipped on `exponent == 0` has identical operand polynomials (X^e * u[j] - u[i] vanishes for e = 0 only when j == i)")
     res.assumptions = ["svp_apply_dft_to_dft(x_pow_a[e], u) multiplies u by X^e; x_pow_a[0] is the constant 1"]
     cfgs = ["avx-dev"] if tier == "quick" else ["avx-dev", "ref-dev"]
@@ -122,5 +384,7 @@ def run(res, tier):
         p = facts.load(cfg)
         res.configs.append(p.build_info)
         n = rot1(p, res)
-        res.floor("ROT-1", "accumulator updates of the blind rotation", n, 4)
+        res.floor("ROT-1", "accumulator updates of the blind rotation", n, 2)
+        ne = ext1(p, res)
+        res.floor("EXT-1", "groups of interleaved move sites", ne, 2)
         res.fn_count += n
